@@ -1,5 +1,5 @@
 """C09 mh, mala, hmc are reversible (structural clauses, DESIGN §4-C09)."""
-from . import gfi, infer
+from . import lints, gfi, infer
 
 EXPLANATION = ("The symbolic return term of each kernel is decomposed into proposal, accept test and select; proposal means, "
                "scales, evaluation points and the log-ratio's signed constituents are compared as polynomials with the MH rule for that proposal.")
@@ -10,5 +10,10 @@ def cond_part(ctx):
     gfi.cond_regenerate_rebased(ctx)
 
 
-RULES = [infer.mh_rule, infer.mala_rule, infer.hmc_rule, infer.log_density_closure, infer.mala_noise_shape, infer.hmc_momentum_shape, cond_part]
+
+def trc(ctx):
+    lints.trc_lint(ctx, ["genjax.inference.mcmc.mh", "genjax.inference.mcmc.mala", "genjax.inference.mcmc.hmc", "genjax.inference.mcmc._create_log_density_wrt_selected"])
+
+
+RULES = [trc, infer.mh_rule, infer.mala_rule, infer.hmc_rule, infer.log_density_closure, infer.mala_noise_shape, infer.hmc_momentum_shape, cond_part]
 FLOOR = 7
